@@ -194,7 +194,10 @@ def supervise():
     if '--tier' in a: tier = a[a.index('--tier') + 1]
     # once more with the operation trace switched on (harnesses that support it log every operation before executing it)
     tr = tempfile.NamedTemporaryFile(prefix='vtrace_', suffix='.txt', delete=False); tr.close()
-    r2 = subprocess.run([sys.executable, os.path.abspath(__file__)] + a, env=dict(env, VERIF_TRACE=tr.name, VERIF_NO_ESCALATE='1'), capture_output=True, text=True)
+    try: r2 = subprocess.run([sys.executable, os.path.abspath(__file__)] + a, env=dict(env, VERIF_TRACE=tr.name, VERIF_NO_ESCALATE='1'), capture_output=True, text=True, timeout=900)
+    except subprocess.TimeoutExpired as te:
+        class _R: returncode = 'timeout'; stderr = (te.stderr or b'').decode('utf8', 'replace') if isinstance(te.stderr, bytes) else (te.stderr or '')
+        r2 = _R()
     try: trace = open(tr.name).read().split('\n')[-40:]
     except Exception: trace = []
     try: os.unlink(tr.name)
